@@ -75,7 +75,28 @@ def empty_stream(which: int) -> bool:
     return True
 
 
+def doubles(m1: int, site: int, mut: int, rsel: int, tag: str, vsel: int,
+            ksel: int) -> bool:
+    """
+    pre: 0 <= m1 < 6 and 0 <= site < 28 and 0 <= mut < 6 and 0 <= rsel < 90
+    pre: 1 <= len(tag) <= 40 and tag != '!'
+    pre: not tag.startswith('tag:yaml.org,2002:')
+    pre: 0 <= vsel < 17 and 0 <= ksel < 14
+    post: __return__
+    """
+    r = pipeline.explore2(slice_no(0), m1, site, mut, rsel, tag, vsel, ksel,
+                          _check)
+    return True if r is None else r[1]
+
+
 CONDITIONS = [
+    {'fn': 'doubles', 'slices': pipeline.double_slices(), 'quick': None,
+     'thorough': 500,
+     'bound': 'TWO simultaneous mutations on the first base document of 8 '
+              'models: one slice per first site; first mutation = drop the '
+              'entry / set one of 3 values / retag str or int; second '
+              'mutation = any single-point mutation of the quick palettes at '
+              'any other site'},
     {'fn': 'mutants', 'slices': pipeline.ALL_SLICES,
      'quick_slices': pipeline.QUICK_SLICES, 'quick': 110, 'thorough': 600,
      'bound': pipeline.MUTANT_BOUND},
